@@ -356,15 +356,16 @@ def system2mpc(system) -> dict:
 
     # --- PQ ---
     if system.PQ.n > 0:
+        # several loads may sit on one bus; loads out of service carry no demand
         pq_pos = system.Bus.idx2uid(system.PQ.bus.v)
-        bus[pq_pos, 2] = system.PQ.p0.v * base_mva
-        bus[pq_pos, 3] = system.PQ.q0.v * base_mva
+        np.add.at(bus[:, 2], pq_pos, system.PQ.u.v * system.PQ.p0.v * base_mva)
+        np.add.at(bus[:, 3], pq_pos, system.PQ.u.v * system.PQ.q0.v * base_mva)
 
     # --- Shunt ---
     if system.Shunt.n > 0:
         shunt_pos = system.Bus.idx2uid(system.Shunt.bus.v)
-        bus[shunt_pos, 4] = system.Shunt.g.v * base_mva
-        bus[shunt_pos, 5] = system.Shunt.b.v * base_mva
+        np.add.at(bus[:, 4], shunt_pos, system.Shunt.u.v * system.Shunt.g.v * base_mva)
+        np.add.at(bus[:, 5], shunt_pos, system.Shunt.u.v * system.Shunt.b.v * base_mva)
 
     # --- PV ---
     if system.PV.n > 0:
